@@ -184,3 +184,31 @@ M("c07-vtext-no-unescape", "C07", "C07/",
   (PR, "        ical_unesc = unescape_char(ical)\n        return cls(ical_unesc)", "        return cls(ical)"))
 M("c07-twin-rename", "C07", "silent",
   (PR, "        ical_unesc = unescape_char(ical)\n        return cls(ical_unesc)", "        return cls(unescape_char(ical))"))
+
+# ---------------------------------------------------------------- C08
+M("c08-quotable-no-colon", "C08", "C08/QUOTE",
+  (P, 'QUOTABLE = re.compile("[,;: ’\']")', 'QUOTABLE = re.compile("[,; ’\']")'))
+M("c08-quotable-no-semicolon", "C08", "C08/QUOTE",
+  (P, 'QUOTABLE = re.compile("[,;: ’\']")', 'QUOTABLE = re.compile("[,: ’\']")'))
+M("c08-qjoin-plain-join", "C08", "C08/QUOTE",
+  (P, "return sep.join(dquote(itm) for itm in lst)", "return sep.join(itm for itm in lst)"))
+M("c08-dquote-keeps-dquote", "C08", "C08/QUOTE",
+  (P, "    val = val.replace('\"', \"'\")\n", ""))
+M("c08-reader-str-split", "C08", "C08/ARITY",
+  (P, "for v in q_split(val, ','):", "for v in val.split(','):"))
+M("c08-reader-semicolon-values", "C08", "C08/DELIMS",
+  (P, "for v in q_split(val, ','):", "for v in q_split(val, ';'):"))
+M("c08-writer-no-upper", "C08", "C08/CASE",
+  (P, "key = key.upper().encode(DEFAULT_ENCODING)", "key = key.encode(DEFAULT_ENCODING)"))
+M("c08-arity-first-only", "C08", "C08/ARITY",
+  (P, "                    if len(vals) == 1:\n                        result[key] = vals[0]\n                    else:\n                        result[key] = vals",
+      "                    result[key] = vals[0]"))
+M("c08-strict-drops-unquoted", "C08", "C08/ARITY",
+  (P, "                        if strict:\n                            vals.append(v.upper())\n                        else:\n                            vals.append(v)",
+      "                        if strict:\n                            vals.append(v.upper())"))
+M("c08-param-value-raw-str", "C08", "C08/QUOTE",
+  (P, "    elif isinstance(value, str):\n        return dquote(value)", "    elif isinstance(value, str):\n        return value"))
+M("c08-writer-colon-kv", "C08", "C08/DELIMS",
+  (P, "result.append(key + b'=' + value)", "result.append(key + b':' + value)"))
+M("c08-twin-rename", "C08", "silent",
+  (P, "def dquote(val):", "def dquote(val, _unused=None):"))
